@@ -55,6 +55,14 @@ fn fails_same(sc: &Scenario, oracles: Oracles, oracle: &str) -> Option<Fail> {
 
 /// ddmin over the event list, then simplifications of batches and data, keeping the same oracle.
 pub fn minimise(sc: &Scenario, oracles: Oracles, oracle: &str) -> Scenario {
+    // bounded effort: a scenario with a giant block costs seconds per execution
+    let deadline = std::time::Instant::now() + std::time::Duration::from_secs(90);
+    let fails_same = |c: &Scenario, o: Oracles, name: &str| -> Option<Fail> {
+        if std::time::Instant::now() > deadline {
+            return None;
+        }
+        fails_same(c, o, name)
+    };
     let mut best = sc.clone();
     if let Some(f) = fails_same(&best, oracles, oracle) {
         let mut t = best.clone();
